@@ -36,8 +36,7 @@ MIRRORED = [('mitxgraders/helpers/calc/mathfuncs.py', '*'),
             ('mitxgraders/helpers/calc/expressions.py', 'MathExpression.eval_node'),
             ('mitxgraders/helpers/calc/expressions.py', 'handle_np_floating_errors'),
             ('mitxgraders/helpers/get_number_of_args.py', 'get_number_of_args')]
-REFUTED = ['C15_wrong_shape_always_rejected_refuted']
-FINDING_ONE_ELEMENT = 'one-element-array-accepted-as-scalar'
+REFUTED = []
 TRUSTED = [
     'translator translate/mathfuncs.py (Python ast -> Gallina: derived functions over a record of numpy primitives, tables, '
     'try/except handlers, np.seterr state); fail-closed',
@@ -73,6 +72,7 @@ Inductive rawobs := RVal (v : val) | RExc (e : pyexc) | RSkip.
 Inductive finobs := FVal (v : val) | FArity (expected : nat) (at_least : bool) (received : nat) | FShape (flags : list bool)
                   | FExc (e : pyexc) | FSkip.
 Record xcase := mkCase { x_matrix : bool; x_name : string; x_args : list val; x_validated : bool; x_nargs : nat;
+                         x_passed : option (list val);   (* the arguments the wrapper handed to the inner function *)
                          x_raw : rawobs; x_trace : list ocall; x_pi : Q; x_final : finobs }.
 
 Definition pyexc_eqb (a b : pyexc) : bool :=
@@ -88,15 +88,15 @@ Fixpoint bools_eqb (a b : list bool) : bool :=
 Definition val_close (a b : val) : bool :=
   match a, b with
   | VNum _ z, VNum _ w => gclose z w
-  | VArr d x, VArr d' y => dims_eqb d d' && gclose_list x y
-  | VNum _ z, VArr [] [w] | VArr [] [z], VNum _ w => gclose z w
+  | VArr _ d x, VArr _ d' y => dims_eqb d d' && gclose_list x y
+  | VNum _ z, VArr _ [] [w] | VArr _ [] [z], VNum _ w => gclose z w
   | _, _ => false
   end.
 Definition sq_close (q : Q) (v : val) : bool :=
   match v with
   | VNum _ (r, i) => Qle_bool 0 r && Qeq_bool i 0
                      && (Qle_bool (Qabs (r * r - q)) ((1 # 100000000000) * q) || Qle_bool (Qabs (r * r - q)) (1 # 10 ^ 300))
-  | VArr [] [(r, i)] => Qle_bool 0 r && Qeq_bool i 0 && Qle_bool (Qabs (r * r - q)) ((1 # 100000000000) * q)
+  | VArr _ [] [(r, i)] => Qle_bool 0 r && Qeq_bool i 0 && Qle_bool (Qabs (r * r - q)) ((1 # 100000000000) * q)
   | _ => false
   end.
 (* det in floating point (LU) against the exact cofactor value: relative to the product of the row 1-norms *)
@@ -116,7 +116,7 @@ Definition rawf (c : xcase) : list val -> outcome val :=
 
 Definition final_agrees (e : fentry) (c : xcase) : bool :=
   let shapes := map shape_of_val (x_args c) in
-  let model := call_entry G.gen_eval_function_handlers G.gen_arity_mismatch e shape_of_val (x_nargs c) (rawf c) (x_args c) in
+  let model := call_entry G.gen_eval_function_handlers G.gen_arity_mismatch e shape_of_val item_val (x_nargs c) (rawf c) (x_args c) in
   let wrapper := match fe_spec e with Some sp => validate sp shapes | None => VCall end in
   match x_final c with
   | FSkip => true
@@ -149,22 +149,46 @@ Definition body_runs (e : fentry) (c : xcase) : bool :=
   end.
 
 Definition square_arg (c : xcase) : bool :=
-  match x_args c with [VArr [r; k] _] => Nat.eqb r k | _ => true end.
+  match x_args c with [VArr _ [r; k] _] => Nat.eqb r k | _ => true end.
+
+(* the arguments the inner function is called on, according to the model *)
+Definition model_passed (e : fentry) (c : xcase) : list val :=
+  match fe_spec e with
+  | Some sp => coerce item_val (expected_shapes sp (List.length (x_args c))) (x_args c)
+  | None => x_args c
+  end.
+
+Fixpoint vals_identical (a b : list val) : bool :=
+  match a, b with
+  | [], [] => true
+  | VNum c z :: a', VNum c' w :: b' => Bool.eqb c c' && geqb z w && vals_identical a' b'
+  | VArr c d x :: a', VArr c' d' y :: b' =>
+      Bool.eqb c c' && dims_eqb d d' && (fix go (p q : list GQ) := match p, q with [], [] => true | z :: p', w :: q' => geqb z w && go p' q' | _, _ => false end) x y
+      && vals_identical a' b'
+  | _, _ => false
+  end.
+
+(* trace-level: what the wrapper handed over is what the model says (numbers where scalars are demanded) *)
+Definition passed_agrees (e : fentry) (c : xcase) : bool :=
+  match x_passed c with
+  | None => true
+  | Some l => body_runs e c && vals_identical (model_passed e c) l
+  end.
 
 Definition exact_agrees (e : fentry) (c : xcase) : bool :=
   if negb (body_runs e c) then true else
   match xfun_of (fe_target e) with XDet | XTrace => negb (square_arg c) | _ => false end ||
-  match exact_target (fe_target e) (x_args c), x_raw c with
+  match exact_target (fe_target e) (model_passed e c), x_raw c with
   | _, RSkip => true
   | None, _ => true
   | Some (MVal _), RExc XOverflowError | Some (MSquared _), RExc XOverflowError => true   (* an intermediate overflowed *)
   | Some (MVal v), RVal v' =>
       match xfun_of (fe_target e), x_args c with
-      | XDet, [VArr [r; k] data] => loose_close (row_scale data r k) v v'
-      | XTrace, [VArr [r; k] data] => loose_close (fold_right Qplus 0 (map (fun z => Qabs (fst z) + Qabs (snd z)) data)) v v'
-      | XCross, [VArr _ a; VArr _ b] =>
+      | XDet, [VArr _ [r; k] data] => loose_close (row_scale data r k) v v'
+      | XTrace, [VArr _ [r; k] data] => loose_close (fold_right Qplus 0 (map (fun z => Qabs (fst z) + Qabs (snd z)) data)) v v'
+      | XCross, [VArr _ _ a; VArr _ _ b] =>
           match v, v' with
-          | VArr d x, VArr d' y =>
+          | VArr _ d x, VArr _ d' y =>
               let s := fold_right Qplus 0 (map (fun z => Qabs (fst z) + Qabs (snd z)) a)
                        * fold_right Qplus 0 (map (fun z => Qabs (fst z) + Qabs (snd z)) b) in
               dims_eqb d d' && (fix go (p q : list GQ) : bool :=
@@ -184,7 +208,7 @@ Definition exact_agrees (e : fentry) (c : xcase) : bool :=
 
 Definition derived_agrees (e : fentry) (c : xcase) : bool :=
   if negb (body_runs e c) then true else
-  match fe_target e, x_args c, x_raw c with
+  match fe_target e, model_passed e c, x_raw c with
   | TLocal n, [VNum _ z], RVal (VNum _ w) =>
       match derived1 (ExactPrims (x_pi c) (x_trace c)) n with Some f => gclose (f z) w | None => true end
   | TLocal n, [VNum false x; VNum false y], RVal (VNum _ w) =>
@@ -198,7 +222,8 @@ Definition opt_is_some {A} (o : option A) : bool := match o with Some _ => true 
 Definition agree (c : xcase) : bool :=
   match entry_of c with
   | None => false
-  | Some e => Bool.eqb (x_validated c) (opt_is_some (fe_spec e)) && final_agrees e c && exact_agrees e c && derived_agrees e c
+  | Some e => Bool.eqb (x_validated c) (opt_is_some (fe_spec e)) && final_agrees e c && passed_agrees e c
+              && exact_agrees e c && derived_agrees e c
   end.
 
 (* table rows observed at run time: (matrix?, name, validated, arity kind 0 exactly / 1 at least / 2 unvalidated, n) *)
@@ -267,7 +292,8 @@ def val_term_of_arg(a):
     if O.is_scalar(a):
         return '(VNum %s %s)' % (boollit(a[0] == 'c'), gq(O.sc(a)))
     dims = O.shape_of(a)
-    return '(VArr %s %s)' % (listlit([natlit(d) for d in dims]), listlit([gq(x) for x in O.flat(a)]))
+    cplx = any(isinstance(x, complex) for x in O.flat(a))
+    return '(VArr %s %s %s)' % (boollit(cplx), listlit([natlit(d) for d in dims]), listlit([gq(x) for x in O.flat(a)]))
 
 
 def val_term_of_value(v):
@@ -279,7 +305,7 @@ def val_term_of_value(v):
         flat = [complex(x) for x in v.reshape(-1)]
         if not all(finite_num(x) for x in flat):
             return None
-        return '(VArr %s %s)' % (listlit([natlit(d) for d in v.shape]), listlit([gq(x) for x in flat]))
+        return '(VArr %s %s %s)' % (boollit(bool(np.iscomplexobj(v))), listlit([natlit(d) for d in v.shape]), listlit([gq(x) for x in flat]))
     if O.is_number(v):
         if not finite_num(v):
             return None
@@ -333,11 +359,13 @@ class NpProxy(object):
 
 
 def raw_call(table, fname, args):
-    """call the inner callable (below SpecifyDomain's wrapper) directly; returns (status, value/exception, trace)"""
+    """Observe the inner callable below SpecifyDomain's wrapper: the wrapper is called on the arguments with its closure
+    variable `func` replaced, for the duration of the call, by a recorder that notes what it is handed and what the real
+    inner function does with it.  Unvalidated entries are called directly.
+    Returns (status, value/exception, numpy trace, passed) -- status None / passed None when the inner function was not reached."""
     import numpy as np
     from mitxgraders.helpers.calc import mathfuncs
     f = O.tables()[table][fname]
-    inner = getattr(f, '__wrapped__', f) if getattr(f, 'validated', False) else f
     pyargs = [O.to_python(a) for a in args]
     log = []
     old = mathfuncs.np
@@ -345,10 +373,38 @@ def raw_call(table, fname, args):
     try:
         with warnings.catch_warnings():
             warnings.simplefilter('ignore')
-            st, out = core.guarded(inner, *pyargs)
+            if not getattr(f, 'validated', False):
+                st, out = core.guarded(f, *pyargs)
+                return st, out, log, list(pyargs)
+            cell = None
+            for name, c in zip(f.__code__.co_freevars, f.__closure__ or ()):
+                if name == 'func':
+                    cell = c
+            if cell is None:            # wrapper of an unknown shape: fall back to the inner function on the raw arguments
+                inner = getattr(f, '__wrapped__', f)
+                st, out = core.guarded(inner, *pyargs)
+                return st, out, log, None
+            inner = cell.cell_contents
+            seen = {}
+
+            def recorder(*passed):
+                seen['passed'] = list(passed)
+                try:
+                    seen['out'] = ('ret', inner(*passed))
+                except Exception as e:      # noqa
+                    seen['out'] = ('exc', e)
+                    raise
+                return seen['out'][1]
+            cell.cell_contents = recorder
+            try:
+                core.guarded(f, *pyargs)
+            finally:
+                cell.cell_contents = inner
+            if 'out' not in seen:
+                return None, None, log, None
+            return seen['out'][0], seen['out'][1], log, seen['passed']
     finally:
         mathfuncs.np = old
-    return st, out, log
 
 
 ARITY_RE = re.compile(r'Expected (at least )?(\d+) inputs, but received (\d+)\.')
@@ -386,7 +442,7 @@ def exact_case_term(case, obs, pi_q):
     if not validated:
         st, n = core.guarded(get_number_of_args, f)
         nargs = n if st == 'ret' and isinstance(n, int) and 0 <= n < 50 else 49
-    st, out, log = raw_call(table, fname, args)
+    st, out, log, passed = raw_call(table, fname, args)
     if st == 'ret':
         t = val_term_of_value(out)
         raw = 'RSkip' if t is None else '(RVal %s)' % t
@@ -394,10 +450,15 @@ def exact_case_term(case, obs, pi_q):
         raw = '(RExc %s)' % exc_term(out)
     else:
         raw = 'RSkip'
+    passed_term = 'None'
+    if passed is not None and validated:
+        pts = [val_term_of_value(x) for x in passed]
+        if all(p is not None for p in pts):
+            passed_term = '(Some %s)' % listlit(pts)
     trace = listlit(['(mkCall %s %s %s)' % (coq_string(n), listlit([gq(a) for a in a_]), gq(r)) for n, a_, r in log[:8]])
-    return ('(mkCase %s %s %s %s %s %s %s %s %s)' %
+    return ('(mkCase %s %s %s %s %s %s %s %s %s %s)' %
             (boollit(table == 'matrix'), coq_string(fname), listlit([val_term_of_arg(a) for a in args]), boollit(validated),
-             natlit(nargs), raw, trace, pi_q, final_term(obs)))
+             natlit(nargs), passed_term, raw, trace, pi_q, final_term(obs)))
 
 
 # ------------------------------------------------------------------------------------------------
@@ -714,7 +775,7 @@ def build_cases(ctx):
     cases += G.multi_cases(['formula', 'matrix'], rng, 25 if thorough else 8)
     cases += G.matrix_cases(rng, 24 if thorough else 8)
     cases += G.arity_shape_cases([(t, names[t]) for t in ('formula', 'matrix')], rng)
-    # one-element arrays of every rank at scalar positions (known defect corpus, found on every run)
+    # regression corpus: number-like (one-element) arrays of every rank at scalar positions must behave as the number they hold
     for t in ('formula', 'matrix'):
         for f in ('sin', 'sqrt', 'arccot', 'floor', 'kronecker', 'max'):
             for sh in ((1,), (1, 1), (1, 1, 1)):
@@ -739,31 +800,6 @@ def in_exact_stream(c, obs, index, thorough):
 
 def case_key(c):
     return '%s:%s:%r' % (c['table'], c['fname'], c['args'])
-
-
-def is_one_element_case(c):
-    """a scalar position holds an array with exactly one element (ndim >= 1) and nothing else is wrong with the call"""
-    f, args = c['fname'], c['args']
-    scalar_only = (f in O.SCALAR1 and not (f == 'abs' and c['table'] == 'matrix')) or f in ('min', 'max', 'arctan2', 'kronecker')
-    if not scalar_only:
-        return False
-    n = len(args)
-    if f in ('min', 'max'):
-        if n < 2:
-            return False
-    elif f in ('arctan2', 'kronecker'):
-        if n != 2:
-            return False
-    elif n != 1:
-        return False
-    arrays = [a for a in args if not O.is_scalar(a)]
-    if not arrays:
-        return False
-    for a in arrays:
-        sh = O.shape_of(a)
-        if len(sh) < 1 or any(d != 1 for d in sh):
-            return False
-    return True
 
 
 def run(ctx):
@@ -798,7 +834,7 @@ def run(ctx):
         dist[dist_key] = dist.get(dist_key, 0) + 1
         if what:
             res.witnesses.append({'key': k, 'kind': 'call', 'table': c['table'], 'fname': c['fname'], 'args': c['args'],
-                                  'what': what, 'one_element_array': is_one_element_case(c),
+                                  'what': what,
                                   'observed': repr(obs.get('value', obs.get('exc')))[:200]})
         res.nontrivial.add(k)
         if in_exact_stream(c, obs, len(seen), thorough):
@@ -880,19 +916,6 @@ def replay(w):
     return False, 'unknown witness kind %r' % (kind,)
 
 
-def classify_known(w, known_entries):
-    """exactly one defect is characterised: a scalar position of a SpecifyDomain-validated function receives an array with
-    exactly one element (specify_domain.number_validator -> is_numberlike_array) and the call is otherwise well-formed;
-    the function body then runs on the array and returns a value instead of ArgumentShapeError"""
-    ids = set(e.get('id') for e in known_entries)
-    if FINDING_ONE_ELEMENT not in ids:
-        return None
-    if w.get('kind') == 'call' and w.get('one_element_array') and is_one_element_case(w) \
-            and ('instead of a student-facing error' in w.get('what', '')) and w['what'].startswith('array given to'):
-        return FINDING_ONE_ELEMENT
-    return None
-
-
 LEVEL_TEXT = ('Theorems (Coq, all arguments): on the reals, the regenerated definitions of sec, csc, cot, sech, csch, coth equal their '
               'textbook definitions; arcsec, arccsc, arccot, arcsech, arccsch, arccoth satisfy f(f_inverse(x)) = x on their real domains with '
               'their principal ranges; arctan2(x, y) is the angle in (-pi, pi] of the point (x, y) for every (x, y) != (0, 0) and an error at '
@@ -900,8 +923,8 @@ LEVEL_TEXT = ('Theorems (Coq, all arguments): on the reals, the regenerated defi
               'lower-triangular matrix and the identity in every dimension) over any commutative ring; floor, ceil, min, max, conj over all '
               'rationals; i^2 = -1 and pi, e are the nearest doubles; for every argument list a wrong count is ArgumentError, a rejected '
               'shape ArgumentShapeError, every other failure a student-facing error, numpy divide/overflow/invalid events raise; the '
-              'tables are exactly the documented ones. Refuted (and found on the real code): a one-element array is accepted where a '
-              'scalar is demanded. Complex continuation and floating-point accuracy are not theorems: they are certified point-wise '
+              'tables are exactly the documented ones; the wrapper calls the function iff count and shapes are accepted by the validators and '
+              'then hands every scalar position a number (a number-like array becomes the number it holds). Complex continuation and floating-point accuracy are not theorems: they are certified point-wise '
               '(Interval) and checked by an independent oracle on every run.')
 LEVEL_NOTE = ('Partial: real-domain theorems in exact arithmetic + point-wise machine-checked enclosures; numpy/libm accuracy, complex '
               'branches, LAPACK det/norm are oracles. Axioms: the classical reals of the Coq standard library (and what Interval needs). '
